@@ -24,6 +24,7 @@ type credential struct {
 	auth   string // Authorization header
 	valid  bool   // harness bookkeeping: this credential was issued by this proxy/IdP and is valid now
 	user   idpUser
+	plan   func() *faultPlan // store faults / interleavings that go with this credential
 }
 
 // issueSessionCookie saves a session through the real store with a chosen CreatedAt and returns
@@ -85,6 +86,22 @@ func (e *testEnv) credentials(u idpUser) []credential {
 		out = append(out, credential{kind: "wrongname", cookie: strings.Replace(good, o.Cookie.Name+"=", "other_"+o.Cookie.Name+"=", 1)})
 		// truncated
 		out = append(out, credential{kind: "truncated", cookie: good[:len(good)*2/3]})
+	}
+	if o.Cookie.Refresh > 0 {
+		mk := func() string {
+			s := e.sessionFor(u, o.Cookie.Refresh+time.Hour)
+			s.RefreshToken = fmt.Sprintf("rt-az-%d", time.Now().UnixNano())
+			e.registerRT(s.RefreshToken, u)
+			return e.issueSessionCookie(s)
+		}
+		out = append(out, credential{kind: "stale-refreshable", cookie: mk(), valid: true, user: u})
+		// the re-read of the session under the refresh lock fails (store fault / signed out meanwhile)
+		out = append(out, credential{kind: "stale-reload-fails", cookie: mk(), plan: func() *faultPlan {
+			return &faultPlan{at: map[string]string{"load#2": "before"}}
+		}})
+		out = append(out, credential{kind: "stale-lock-fails", cookie: mk(), plan: func() *faultPlan {
+			return &faultPlan{at: map[string]string{"obtain#1": "before"}}
+		}})
 	}
 	// signed with another secret by the harness's own HMAC (cookie store layout; for redis a ticket-like value)
 	{
@@ -300,7 +317,23 @@ func init() {
 						h.Set("Authorization", cr.auth)
 					}
 					rs := reqSpec{Method: ep.method, Target: ep.target, Header: h, Cookie: cr.cookie, RemoteAddr: ep.remote, Body: ep.body}
-					v, real := e.serveCase(rs, nil, "authz")
+					var plan *faultPlan
+					if cr.plan != nil {
+						plan = cr.plan()
+					}
+					if strings.HasPrefix(cr.kind, "stale") && ei > 3 {
+						continue // a refresh consumes the single-use token: exercise the stale kinds on the first endpoints only
+					}
+					if cr.kind == "stale-refreshable" {
+						// fresh cookie + token per request
+						fresh := e.credentials(u)
+						for _, f := range fresh {
+							if f.kind == "stale-refreshable" {
+								rs.Cookie = f.cookie
+							}
+						}
+					}
+					v, real := e.serveCase(rs, plan, "authz")
 					e.monitorC01(ep, cr, v, real)
 					c.count("cred:" + cr.kind)
 				}
